@@ -19,6 +19,7 @@ import (
 	"log/slog"
 	"math"
 	"os"
+	"runtime/debug"
 	"sort"
 	"strconv"
 	"strings"
@@ -310,6 +311,9 @@ func v7Next(cfg *v7Cfg, exp []v7Exp) int {
 		h += int64(e.tok+1) * int64(31*e.dpos+17)
 	}
 	h %= 1000003
+	if h < 0 {
+		h += 1000003 // Euclidean remainder, as Lean's Int.emod (key-row positions can go negative after a bad defrag)
+	}
 	if cfg.eosMod > 0 && h%int64(cfg.eosMod) == 0 {
 		return cfg.vocab - 1
 	}
@@ -853,14 +857,27 @@ func (h *v7Harness) run(next func() *v7Event) {
 		time.Sleep(time.Millisecond) // fake time: one tick per event (also keeps F22 out of the way)
 		var o string
 		cont := true
-		switch e.kind {
-		case "req":
-			o = h.doReq(e)
-		case "busy":
-			o = h.doBusy(e)
-		case "step":
-			o, cont = h.doStep(e)
-		}
+		func() {
+			// a panic of the real code ends the history; it is reported with its replay
+			defer func() {
+				if p := recover(); p != nil {
+					h.out.Count("runner_panic")
+					if os.Getenv("VERIF_C07_TRACE") != "" {
+						fmt.Fprintf(os.Stderr, "panic: %v\n%s\n", p, debug.Stack())
+					}
+					h.l2("runner-panic", fmt.Sprintf("the runner code panicked during a %s event: %v", e.kind, p))
+					o, cont = e.kind+":panic", false
+				}
+			}()
+			switch e.kind {
+			case "req":
+				o = h.doReq(e)
+			case "busy":
+				o = h.doBusy(e)
+			case "step":
+				o, cont = h.doStep(e)
+			}
+		}()
 		h.events = append(h.events, e.String())
 		if cont {
 			h.checkCoherent("after " + e.kind)
